@@ -883,8 +883,12 @@ def _resync(ctx, mod, ref, names, check_valid, opname):
         if c.variable not in names.lab2idx:
             continue
         v = names.lab2idx[c.variable]
+        if check_valid and c.variable not in mod.nodes():
+            # a table left behind for a variable that is no longer in the graph is not a conditional "over its graph parents"
+            ctx.fail("cpd_valid_after_edit", f"{PROP}:cpd_of_absent_node_after:{opname}", {"var": v})
+            continue
         if check_valid:
-            ps = [p for p in mod.predecessors(c.variable)] if c.variable in mod.nodes() else []
+            ps = [p for p in mod.predecessors(c.variable)]
             why = valid_conditional(c, ps)
             if why:
                 ctx.fail("cpd_valid_after_edit", f"{PROP}:invalid_cpd_after:{opname}", {"var": v, "why": why})
